@@ -355,6 +355,18 @@ pub fn gen_source_spec(len: usize) -> SourceSpec {
     })
 }
 
+/// Upper bound of a source that will be compressed with `comp`: the expensive settings (brotli
+/// 10-11, zstd >= 14, lzma >= 3) cost seconds per MiB and minutes on unlucky low-entropy data
+/// (a C16 run at seed 2 sat in brotli's zopfli matcher for more than 220 s and had its worker
+/// killed by the watchdog), so they get a few chunks and never more than 256 KiB.
+pub fn len_cap(comp: Comp, cfg: &Cfg, max_len: usize) -> usize {
+    if comp.expensive() {
+        max_len.min(cfg.expected_avg().saturating_mul(16).max(64)).min(256 * 1024)
+    } else {
+        max_len
+    }
+}
+
 /// A source sized for `cfg`, at most `max_len` bytes.
 pub fn gen_source(cfg: &Cfg, max_len: usize) -> (SourceSpec, Vec<u8>) {
     let len = gen_len(cfg, max_len);
